@@ -17,7 +17,8 @@ CHECKS = {
               "translation permutation group)."),
         note=("Trusted: TLC, the projection of real positions to integer numerators (residual checked), numpy. "
               "Bounded: S entries -1..1 exhaustively (thorough), random entries -2..3 with |det|<=8; unit cells "
-              "with 1-3 atoms on 1/4 and 1/6 grids; triclinic real lattices."),
+              "with 1-3 atoms on 1/4 and 1/6 grids; triclinic real lattices."
+              " Later additions: SNF.tla transcription of snf.py, noisy and non-collinear cells, positions_to_reorder, primitive_matrix='auto', species-interleaved cells against cross-species primitive translations."),
         design="5/C04"),
     "C05": dict(
         text=("ShortestVectors.tla defines the minimum-image set of a separation by scanning a box whose sufficiency "
@@ -30,7 +31,8 @@ CHECKS = {
               "converters)."),
         note=("Trusted: TLC; projection of real vectors to integers over D (residual checked); spglib only as the "
               "code's own dependency. Bounded: reduced forms with diagonal <= 3 (quick) / 5 (thorough), grid 1/2 "
-              "or 1/4; impl lattices U G U^T with |U| <= 6; 32-bit overflow guarded by the generator."),
+              "or 1/4; impl lattices U G U^T with |U| <= 6; 32-bit overflow guarded by the generator."
+              " Later additions: sub-tolerance noise, tables of real Primitive objects incl. objects built with symprec=1e-3 on strained crystals, a ladder of large tables (>1000 atoms, whole-table address facts), bases that look reduced by their angles but are not."),
         design="5/C05"),
     "C06": dict(
         text=("Commensurate.tla defines the commensurate set of S (all n/N with S^T n = 0 mod N), and TLC checks for "
@@ -64,7 +66,8 @@ CHECKS = {
               "string; float->monomial search); own emitters/parsers for calculator outputs (our reading of the formats); "
               "a cp2k_input_tools stand-in. Traits not defects: qe/siesta writers are partial, crystal/fleur readers cannot "
               "read their writers' files directly. Bounds: <= 6 atoms in the model, <= 5 real (plus 10/13-atom cells), 3 "
-              "species, collinear moments, supercells det 2, type-1 datasets."),
+              "species, collinear moments, supercells det 2, type-1 datasets."
+              " Later additions: UnitsRoute.tla (every route by which units reach a calculation incl. phonopy-calc-convert), force-collection modes, the zero-mode reference file as its own action with partial-mismatch classes."),
         design="5/C17 and 11.2"),
     "C19": dict(
         text=("RandomDisp.tla transcribes the sampling structure of RandomDisplacements as a step machine (SNF contract, "
@@ -80,7 +83,8 @@ CHECKS = {
         note=("Trusted: TLC; numpy eigh/exp applied to oracle values; the real SNF3x3 output (contract checked by TLC); "
               "constants written out literally. Bounds: index <= 8/12; covariance model for exponent-4 groups; physical "
               "cases N <= 27, <= 72 atoms; tolerance 1e-9 relative. Out of scope: imaginary modes, max_distance clipping, "
-              "yaml/CIF writers."),
+              "yaml/CIF writers."
+              " Later additions: RandomDispHistory.tla (call sequences, seeds), dynamically unstable crystals (C19Unstable.tla) for the run_d2f identity, frequency windows of thermal displacements."),
         design="5/C19 and 11.2"),
     "C14": dict(
         text=("AccessPaths.tla names every reported array by a token (kind, q, NAC term, rounding, group-velocity "
@@ -98,7 +102,8 @@ CHECKS = {
               "it); group-velocity tokens come from a fresh GroupVelocity (C12 owns it); numpy eigh; without NAC the Fourier "
               "sum is TLC-computed. Bounds: primitive = unit cell, 4 crystals (one with all modes unstable), 2x2x2 "
               "supercells, q-lists <= 3 points, meshes <= 12 irreducible points; band connection 3x3 entries -2..2, 4x4 "
-              "-1..1; files compared to half a unit of the last printed digit."),
+              "-1..1; files compared to half a unit of the last printed digit."
+              " Later additions: query histories (QueryHistory.tla), bulk batches (thousands of q-points, dense meshes; batched vs per-q, omp vs serial), presentation (container / memory layout) of the q-point argument."),
         design="5/C14 and 11.2"),
     "C10": dict(
         text=("Thermal.tla is an exact model of which harmonic-oscillator terms each code path adds up and with which "
@@ -117,7 +122,8 @@ CHECKS = {
         note=("Trusted: numpy/decimal for exp, log, expm1; the least-squares decode (residual logged, worst 1e-10); leaf "
               "enclosures of ThermalIEEE (validated by sampling, not proven). Bounds: exhaustive model nq <= 2, nb <= 3, "
               "levels {-1,0,1,2}; finiteness claim for 2^-40 <= x <= 2^23, 1e-3 K <= T <= 1e4 K; replay tolerances 1e-10 "
-              "(x >= 1e-3) to 1e-4 (x < 1e-6) relative; identities 1e-6..1e-2 N k_B."),
+              "(x >= 1e-3) to 1e-4 (x < 1e-6) relative; identities 1e-6..1e-2 N k_B."
+              " Later additions: argument/flag histories (ThermalArgs.tla), q-count ladder up to 4097 q-points with a per-q-point weight coverage invariant (ThermalCoverage.tla), overflow classes of h nu/kT."),
         design="5/C10 and 11.2"),
     "C20": dict(
         text=("Eos.tla writes Vinet, Birch-Murnaghan and Murnaghan once, as expression trees in textbook form; TLC "
@@ -135,7 +141,8 @@ CHECKS = {
               "onto the denominators of TLC's expected values; EV and Avogadro of units.py as base constants; "
               "monkeypatching core.fit_to_eos to observe rows; fit convergence assumed (0 failures in 4000 real fits). "
               "Bounds: B0' != 1; rational parameter grids; 1-8 temperatures (12 thorough); 5-11 volumes; shapes (V) and "
-              "(T,V); six pressures."),
+              "(T,V); six pressures."
+              " Later additions: QhaSeq.tla (call sequences), QhaModel.tla, energy-offset invariance and fine temperature grids."),
         design="5/C20 and 11.2"),
     "C08": dict(
         text=("NAC.tla keeps Born charges and the dielectric tensor of the polar catalogue crystals in exact lattice "
@@ -153,7 +160,8 @@ CHECKS = {
               "matrix as reference (the property is relative to it). Bounds: 10 (quick) / 21 (thorough) configurations over "
               "nacl/naclg (F), wz, tetab, cscl, tric and a spec-only P4 crystal, |det S| <= 9. Gonze-Lee 'unchanged' is "
               "required at first-zone images of commensurate points only (truncated reciprocal sum is not periodic "
-              "outside). Not exercised: GL at non-commensurate q against an independent Ewald sum, with_full_terms."),
+              "outside). Not exercised: GL at non-commensurate q against an independent Ewald sum, with_full_terms."
+              " Later additions: memory layouts of the tensors handed in (NACLayout.tla), call histories (NACHistory.tla), the length of the direction n and of a tiny q as spec-side dimensions against Q_DIRECTION_TOLERANCE, non-reduced settings of the polar crystals; with_full_terms is a recorded known finding."),
         design="5/C08 and 11.2"),
     "C11": dict(
         text=("TLC decides, for every ordered 4-tuple of vertex frequencies on 4 (quick) / 5 (thorough) levels plus an "
@@ -172,7 +180,8 @@ CHECKS = {
         note=("Trusted: TLC, float->rational projection (limit_denominator, residual <= 1e-12), numpy realisation of the "
               "definition (validated against TLC's exact values). API level works on real-valued frequencies (binary64 "
               "comparisons judged by TLC as classes). Bounds: vertex values {0,2,4,6(,8)}, meshes <= 12 points, 6/13 "
-              "crystals. Smearing normalisation is a quadrature statement (interpretation side)."),
+              "crystals. Smearing normalisation is a quadrature statement (interpretation side)."
+              " Later additions: memory layouts (TetrahedronLayoutTrace), the main-diagonal requirement (shortest diagonal of the microzone) judged on the tables TotalDos and ProjectedDos hand to the kernel, anisotropic meshes on non-standard bases."),
         design="5/C11 and 11.2"),
     "C12": dict(
         text=("GroupVelocity.tla builds the supercell and the shortest-vector sets by definition and the Wang term K(q) and "
@@ -188,7 +197,8 @@ CHECKS = {
         note=("Trusted: TLC, numpy eigh/exp, the oracle's integer force constants. Bounds: unit cell = primitive cell, "
               "supercells keeping the point group, 9 crystals, 5-12 rational q per configuration incl. one outside the "
               "first cell; non-degenerate = gap > 5e-3 of bandwidth; Grueneisen exponents k = 1..4. Not exercised: group "
-              "velocity at Gamma along a NAC direction."),
+              "velocity at Gamma along a NAC direction."
+              " Later additions: degenerate Grueneisen sets, non-hydrostatic and symmetry-lowering strain triples with the point group a reduced mesh may use (GruneisenMeshSym.tla), build x use_openmp cells for dD/dq and group velocities."),
         design="5/C12 and 11.2"),
     "C13": dict(
         text=("KernelsOMP.tla models every '#pragma omp parallel for' of c/ as threads claiming iterations and executing "
@@ -206,7 +216,8 @@ CHECKS = {
         note=("Trusted: TLC, clang's AST, numpy, the stand-in nanobind header, the reference transcriptions in "
               "harness/c13_refs.py. Bounds: race model with 2 (thorough 3) threads, one small scenario per site, abstract "
               "float data; kernels on 4 crystals, dense/sparse, full/compact, no/Wang/Gonze NAC; tolerances 1e-11 relative. "
-              "Memory safety is monitored (guard zones, sanitizer build), not proved."),
+              "Memory safety is monitored (guard zones, sanitizer build), not proved."
+              " Later additions: flag-cell coverage invariant derived from the glue signatures, build-divergent preprocessor regions, reduction sharing class, near-tie inputs and the two-pass contract of the dense shortest-vector kernel."),
         design="5/C13 and 11.2"),
     "C01": dict(
         text=("DispAlgo/Displacements.tla transcribe phonopy's displacement-direction search; the requirement is stated "
@@ -227,7 +238,8 @@ CHECKS = {
         note=("Trusted: TLC; spglib (its operations are compared with the specification's brute-force space group; a "
               "mismatch is specification drift); numpy for F = -Phi u and the projection (tolerance 1e-6 on integers, "
               "observed 2e-10). Bounded: 9 catalogue structures x 31 supercell matrices, <= 64 atoms; subgroups of O_h / "
-              "D_6h in 10 bases. symfc/ALM, random-displacement datasets and magnetic cells are not covered."),
+              "D_6h in 10 bases. symfc/ALM, random-displacement datasets and magnetic cells are not covered."
+              " Later additions: call histories on one object (DispHistory.tla: every handed-out displaced cell = supercell + the dataset's current displacement, forces taken from the handed-out cells), model scale and displacement distance as dimensions (homogeneity of the solver)."),
         design="5/C01 and 11.2"),
     "C02": dict(
         text=("DynMat.tla states the lattice Fourier sum of the infinite spring-model crystal (from Springs!AllTerms) and "
@@ -244,7 +256,8 @@ CHECKS = {
               "commensurate q, zone-boundary / generic / out-of-zone q, to 1e-10; frequencies and the unit factor too."),
         note=("Trusted: TLC, numpy exp/eigvalsh, projection of positions and svecs to integers (residual checked). Bounds: "
               "nine catalogue crystals (cubic, hexagonal, tetragonal, triclinic; F/I centring), 20 (quick) / 61 (thorough) "
-              "supercell geometries up to 128 atoms incl. non-diagonal; equality at non-commensurate q is numerical."),
+              "supercell geometries up to 128 atoms incl. non-diagonal; equality at non-commensurate q is numerical."
+              " Later additions: reporting route x option set x build as a replay dimension (run_qpoints with eigenvectors and dynamical matrices together, omp and serial)."),
         design="5/C02 and 11.2"),
     "C03": dict(
         text=("On the DynMat.tla machine TLC decides, for any force constants including non-symmetric integer arrays "
@@ -278,7 +291,8 @@ CHECKS = {
         note=("Trusted: TLC and the projection (q Q rounding, residual < 1e-6). spglib is under test, not trusted. phonopy "
               "evaluates eigenvalues and thermal functions on both sides of the on/off comparison. Bounds: mesh numbers 1..4 "
               "with N <= 64 (quick), 1..5 with N <= 80 (thorough); shift denominators 1,2,3,4,5,8; subgroups sampled. "
-              "IterMesh and GeneralizedRegularGridPoints are not covered; no Apalache proof."),
+              "IterMesh and GeneralizedRegularGridPoints are not covered; no Apalache proof."
+              " Later additions: selected on/off sums (MeshGroups.tla), length meshes through init_mesh for both is_mesh_symmetry values on strained cells with spec-chosen boundary lengths, handed-out q-points required to be shortest images (first zone), Wang-NAC on/off comparison on a hexagonal polar crystal."),
         design="5/C09 and 11.2"),
     "C16": dict(
         text=("SaveLoad.tla models save() then load() as a step machine with one action per step of the code; each loaded "
@@ -300,7 +314,8 @@ CHECKS = {
               "content; error classes 0.5 unit of the last written decimal + 2 ulp). Bounds: four small crystals plus a P4 "
               "cell; calculators none/qe/vasp; no symfc (type-2 datasets cannot produce force constants). Recorded "
               "deviations not counted against C16: load docstring priority order differs from the code (D16); one NAC tensor "
-              "written alone is not loadable."),
+              "written alone is not loadable."
+              " Later additions: YamlCompat.tla (older file layouts), masses assigned after construction, calculator resolution, settings-dictionary x dataset-state matrix; options not recorded by save() (use_SNF_supercell, symprec) are a recorded known finding."),
         design="5/C16 and 11.2"),
     "C18": dict(
         text=("C18 is decided on two TLA+ models bound to the real front end. CLI.tla runs over the generated table "
@@ -320,7 +335,8 @@ CHECKS = {
               "help; drift against docs, argparse and settings defaults checked on every run); own emitters for "
               "POSCAR/QE/ABINIT inputs and outputs; yaml/h5py readers. Bounds: configurations of at most two tags; 3 of 16 "
               "calculators; symfc, alm, seekpath, pypolymlp absent (phonopy-load's default solver checked at the decision "
-              "level). Plotting, --symmetry, anime/modulation/irreps execution not compared."),
+              "level). Plotting, --symmetry, anime/modulation/irreps execution not compared."
+              " Later additions: mesh modifiers (GAMMA_CENTER, MP_SHIFT, MESH_SYMMETRY, even/odd, frequency windows) crossed with every mesh-consuming run mode with a TLC-decided vacuity invariant; tdispmat.cif, moments and projected thermal properties compared."),
         design="5/C18 and 11.2"),
     "C07": dict(
         text=("SymOps/Symmetrize.tla transcribe every step of phonopy's force-constant symmetrisers as transformations of "
@@ -341,7 +357,8 @@ CHECKS = {
         note=("Trusted: TLC, numpy, the rounding of real outputs to rationals with denominator 2(2 ns^2)^level (residual <= "
               "1e-9 enforced, observed 2e-15; bit-exact for power-of-two supercell sizes). Bounds: ns <= 8, integer inputs "
               "-2..2 and unit arrays; levels limited per system size to stay within TLC's 32-bit integers; space-group routes "
-              "on axis-aligned cubic/tetragonal lattices only; the step from basis cases to all arrays relies on linearity."),
+              "on axis-aligned cubic/tetragonal lattices only; the step from basis cases to all arrays relies on linearity."
+              " Later additions: process histories (SymProcess.tla), a size ladder of 64-700 atoms in two thread modes (SymLarge.tla: whole-array facts as residual classes, sampled entries exact)."),
         design="5/C07 and 11.2"),
     "C15": dict(
         text=("ApiHistory.tla models one Phonopy object, the arrays its caller holds and one copy(), with one action per "
@@ -364,7 +381,8 @@ CHECKS = {
         note=("Trusted: TLC; the projection (content hashes, object identity, np.shares_memory, tolerance match of "
               "Born/dielectric, first-sighting attribution of the short-range constants' provenance); numpy. Bounds: <= 1 "
               "(quick) / 3 (thorough) live caller handles in the exhaustive runs; 4 crystals; finite-difference solver only; "
-              "is_symmetry=True. Not modelled: IterMesh/init_mesh result snapshots, dataset=None, ph2ph."),
+              "is_symmetry=True. Not modelled: IterMesh/init_mesh result snapshots, dataset=None, ph2ph."
+              " Later additions: result holders, the caller's nac_params dict with raw (non-symmetric) Born charges and a second object sharing it, tolerance margins decided by TLC instead of a self-check."),
         design="5/C15 and 11.2"),
 }
 
@@ -408,7 +426,7 @@ def main():
                       serves_properties=[c["property_id"] for c in checks],
                       kind_free_text="TLC 1.8 explicit-state model checker on /verif/spec/*.tla; harness/ replays/validates against /repo")],
         checks=checks,
-        notes="See DESIGN.md (section 11 describes the tree as built). known_findings.json lists recorded (C15 documented no-copy aliasing) and fixed defects; seeded/ holds the seeded changes and seeded/RESULTS.json which check detects which. Extra checks beyond the fixed property list (same interface, ./check X01|X02|X03): X01 generalized grids / IterMesh protocol / Brillouin-zone relocation, X02 unfolding and modulation, X03 dynamic structure factor and moments (DESIGN.md 11.6).",
+        notes="See DESIGN.md (section 11 describes the tree as built). known_findings.json lists recorded findings (C15 documented no-copy aliasing, C08 Gonze-Lee with_full_terms, C16 constructor options not recorded by save(), and findings of the extra checks X03, X05, X06) and every repaired defect ('fixed:' entries, one per 'fix:' commit in /repo); seeded/ holds the seeded changes and seeded/RESULTS.json which check detects which. Every check runs in a child process; death of that process by SIGSEGV/SIGABRT/SIGBUS/SIGFPE/SIGILL while driving the implementation is reported as a violation. Extra checks beyond the fixed property list (same interface, ./check X01..X06): X01 generalized grids / IterMesh protocol / Brillouin-zone relocation, X02 unfolding and modulation, X03 dynamic structure factor and moments, X04 irreducible representations and character tables, X05 the Symmetry class, X06 cell utilities and PhonopyAtoms (DESIGN.md 11.6).",
         not_applicable=na,
     )
     with open(os.path.join(VERIF, "MANIFEST.json"), "w") as f:
